@@ -117,9 +117,30 @@ func touchProposedBlocks(bs []*block.Block) int {
 	return n
 }
 
+// Callers of leaf functions whose only access is a sync/atomic package function:
+// the race runtime shows the assembly stub and then the *caller* of the leaf
+// function (the stub's ABI wrapper pushes no frame), so the harness frame stands
+// for the leaf function.
+
+//go:noinline
+func callSetRoundRandomSeed(b *block.Block, x int64) { b.SetRoundRandomSeed(x) }
+
+//go:noinline
+func callGetRoundRandomSeed(b *block.Block) int64 { return b.GetRoundRandomSeed() }
+
+//go:noinline
+func callGetRandomSeed(r *round.Round) int64 { return r.GetRandomSeed() }
+
+//go:noinline
+func callHasRandomSeed(r *round.Round) bool { return r.HasRandomSeed() }
+
 var touchOps = map[string]string{
-	"touchNotarizedBlocks": "chaincore/round/entity.go:(*Round).GetNotarizedBlocks result",
-	"touchProposedBlocks":  "chaincore/round/entity.go:(*Round).GetProposedBlocks result",
+	"touchNotarizedBlocks":   "chaincore/round/entity.go:(*Round).GetNotarizedBlocks result",
+	"touchProposedBlocks":    "chaincore/round/entity.go:(*Round).GetProposedBlocks result",
+	"callSetRoundRandomSeed": "chaincore/block/entity.go:(*UnverifiedBlockBody).SetRoundRandomSeed",
+	"callGetRoundRandomSeed": "chaincore/block/entity.go:(*UnverifiedBlockBody).GetRoundRandomSeed",
+	"callGetRandomSeed":      "chaincore/round/entity.go:(*Round).GetRandomSeed",
+	"callHasRandomSeed":      "chaincore/round/entity.go:(*Round).HasRandomSeed",
 }
 
 func execC44(env *sim.Env, p *sim.Plan) *sim.Result {
@@ -209,7 +230,7 @@ func execC44(env *sim.Env, p *sim.Plan) *sim.Result {
 				rd.SetRandomSeedForNotarizedBlock(x+1, len(miners))
 			}
 		case "r.getseed":
-			return si(rd.GetRandomSeed()) + sb(rd.HasRandomSeed()) + sb(rd.IsRanksComputed())
+			return si(callGetRandomSeed(rd)) + sb(callHasRandomSeed(rd)) + sb(rd.IsRanksComputed())
 		case "r.share":
 			sh := &round.VRFShare{Round: 7, Share: "share-" + si(x)}
 			sh.SetParty(miners[int(x)%len(miners)])
@@ -277,9 +298,9 @@ func execC44(env *sim.Env, p *sim.Plan) *sim.Result {
 		case "b.clone":
 			return sb(b.Clone() != nil)
 		case "b.setseed":
-			b.SetRoundRandomSeed(x)
+			callSetRoundRandomSeed(b, x)
 		case "b.getseed":
-			return si(int64(b.GetRoundRandomSeed()))
+			return si(callGetRoundRandomSeed(b))
 		}
 		return ""
 	})
